@@ -646,7 +646,11 @@ func (g *Gen) Object(depth int, inObject bool) *Node {
 		if ts := g.typesOfKind(KString); len(ts) > 0 {
 			c := g.Scalar(false)
 			c.KRefKey(pick(rng, ts).Name)
-			n.Children = append(n.Children, c)
+			// anywhere among the members, not only last
+			at := rng.IntN(len(n.Children) + 1)
+			n.Children = append(n.Children, nil)
+			copy(n.Children[at+1:], n.Children[at:])
+			n.Children[at] = c
 		}
 	}
 	switch rng.IntN(8) {
